@@ -272,7 +272,8 @@ def _kind(a, P):
     if _CTORS is None:
         _CTORS = {"list": list, "set": set, "frozenset": frozenset, "deque": collections.deque}
     if isinstance(a, type) and a in P.cid and P.spec["classes"][P.cid[a]]["kind"] != "enum":
-        return ("cls", a, typing.get_type_hints(a))
+        # class variables are not fields of the instance
+        return ("cls", a, {f: h for f, h in typing.get_type_hints(a).items() if typing.get_origin(h) is not typing.ClassVar})
     origin, args = typing.get_origin(a), typing.get_args(a)
     if origin is tuple:
         if len(args) == 2 and args[1] is Ellipsis:
